@@ -357,14 +357,39 @@ def expandCell (ctx : Ctx) (cell : Cell) : List Cell :=
 def Text.layoutRun (ctx : Ctx) (maxW : Nat) (t : Text) : LSt × List (Option (Nat × Nat)) :=
   TextLayout.layoutRun ctx maxW t.wraps ((t.cells.flatMap (expandCell ctx)).map (·.kind)) LSt.init
 
-/-- `Text::layout` under `BoxConstraint::loose(Size::new(maxH, maxW))`: `ct.clamp(size)` -/
-def Text.layout (ctx : Ctx) (maxH maxW : Nat) (t : Text) : Nat × Nat :=
-  let s := (t.layoutRun ctx maxW).1
-  (min s.sh maxH, min s.sw maxW)
+/-- `BoxConstraint { min, max }` -/
+structure Ct where
+  minH : Nat
+  minW : Nat
+  maxH : Nat
+  maxW : Nat
+  deriving Repr, DecidableEq
 
-/-- `Layout::apply_to`: `shape.view(pos.row..pos.row + size.height, pos.col..pos.col + size.width)` -/
+/-- `BoxConstraint::loose(Size::new(maxH, maxW))` -/
+def Ct.loose (maxH maxW : Nat) : Ct := ⟨0, 0, maxH, maxW⟩
+
+/-- `Ord::clamp(v, lo, hi)`: `assert!(min <= max)` panics (`none`) -/
+def clampU (v lo hi : Nat) : Option Nat :=
+  if lo > hi then none else some (if v < lo then lo else if v > hi then hi else v)
+
+/-- `ct.clamp(size)` = `Size::clamp`: the height first, then the width -/
+def Ct.clamp (ct : Ct) (h w : Nat) : Option (Nat × Nat) :=
+  match clampU h ct.minH ct.maxH with
+  | none => none
+  | some h' =>
+    match clampU w ct.minW ct.maxW with
+    | none => none
+    | some w' => some (h', w')
+
+/-- `Text::layout(ctx, ct, layout)`: the cells are laid out under `ct.max.width`, the size reported is
+`ct.clamp(size)` (`none` = the clamp panicked) -/
+def Text.layout (ctx : Ctx) (ct : Ct) (t : Text) : Option (Nat × Nat) :=
+  let s := (t.layoutRun ctx ct.maxW).1
+  ct.clamp s.sh s.sw
+
+/-- `Layout::apply_to`: `shape.view(pos.row..pos.row.saturating_add(size.height), pos.col..pos.col.saturating_add(size.width))` -/
 def applyTo (sh : Shape) (row col h w : Nat) : Shape :=
-  sh.view (.range row (row + h)) (.range col (col + w))
+  sh.view (.range row (satAdd row h)) (.range col (satAdd col w))
 
 /-- the loop of `Text::render` on the surface `layout.apply_to(surf)` -/
 def Text.renderOn (ctx : Ctx) (t : Text) (sh : Shape) (data : List Cell) : Option Writer :=
@@ -375,9 +400,9 @@ def Text.render (ctx : Ctx) (t : Text) (sh : Shape) (data : List Cell) (row col 
   t.renderOn ctx (applyTo sh row col h w) data
 
 /-- `<str as View>::layout` -/
-def strLayout (ctx : Ctx) (maxH maxW : Nat) (s : List Nat) : Nat × Nat :=
-  let r := (layoutRun ctx maxW true (s.map Kind.chr) LSt.init).1
-  (min r.sh maxH, min r.sw maxW)
+def strLayout (ctx : Ctx) (ct : Ct) (s : List Nat) : Option (Nat × Nat) :=
+  let r := (layoutRun ctx ct.maxW true (s.map Kind.chr) LSt.init).1
+  ct.clamp r.sh r.sw
 
 /-- `<str as View>::render` -/
 def strRender (ctx : Ctx) (s : List Nat) (sh : Shape) (data : List Cell) (row col h w : Nat) : Option Writer :=
@@ -471,6 +496,11 @@ def parseCtx (s widths : String) : Option Ctx :=
            width := fun c => ((ws.find? (·.1 == c)).map (·.2)).getD 0 }
   | _ => none
 
+def parseCt (s : String) : Option Ct :=
+  match s.splitOn "," with
+  | [a, b, c, d] => do pure ⟨← a.toNat?, ← b.toNat?, ← c.toNat?, ← d.toNat?⟩
+  | _ => none
+
 def parsePos (s : String) : Option (Nat × Nat) :=
   match s.splitOn "," with
   | [a, b] => do pure (← a.toNat?, ← b.toNat?)
@@ -561,33 +591,47 @@ def handle : List String → String
       | none => "panic"
       | some wr => showEnd wr
     | _, _, _, _, _, _ => "bad-op"
-  | ["text", h, w, chain, ctx, wraps, widths, maxH, maxW, cells] =>
-    match h.toNat?, w.toNat?, parseChain chain, parseCtx ctx widths, maxH.toNat?, maxW.toNat?, parseList parseCell cells with
-    | some h, some w, some ops, some ctx, some maxH, some maxW, some cells =>
+  | ["text", h, w, chain, ctx, wraps, widths, ct, pos, cells] =>
+    match h.toNat?, w.toNat?, parseChain chain, parseCtx ctx widths, parseCt ct, parsePos pos, parseList parseCell cells with
+    | some h, some w, some ops, some ctx, some ct, some pos, some cells =>
       -- the text is built through `Text::put_cell`
       let t := cells.foldl (fun (t : Text) c => match t.putCell c with | some (t', _) => t' | none => t)
         { Text.new with wraps := wraps == "1" }
-      let sz := t.layout ctx maxH maxW
-      match t.render ctx (Shape.chain ops (Shape.from h w)) (List.replicate (h * w) sentinel) 0 0 sz.1 sz.2 with
+      match t.layout ctx ct with
       | none => "panic"
-      | some wr => s!"{sz.1}x{sz.2} {showCanvas wr.data}"
+      | some sz =>
+        match t.render ctx (Shape.chain ops (Shape.from h w)) (List.replicate (h * w) sentinel) pos.1 pos.2 sz.1 sz.2 with
+        | none => "panic"
+        | some wr => s!"{sz.1}x{sz.2} {showCanvas wr.data}"
     | _, _, _, _, _, _, _ => "bad-op"
-  | ["tlayout", ctx, wraps, widths, maxH, maxW, cells] =>
-    match parseCtx ctx widths, maxH.toNat?, maxW.toNat?, parseList parseCell cells with
-    | some ctx, some maxH, some maxW, some cells =>
+  | ["tlayout", ctx, wraps, widths, ct, cells] =>
+    match parseCtx ctx widths, parseCt ct, parseList parseCell cells with
+    | some ctx, some ct, some cells =>
       let t := cells.foldl (fun (t : Text) c => match t.putCell c with | some (t', _) => t' | none => t)
         { Text.new with wraps := wraps == "1" }
-      let sz := t.layout ctx maxH maxW
-      s!"{sz.1}x{sz.2}"
-    | _, _, _, _ => "bad-op"
-  | ["str", h, w, chain, ctx, widths, maxH, maxW, codes] =>
-    match h.toNat?, w.toNat?, parseChain chain, parseCtx ctx widths, maxH.toNat?, maxW.toNat?, natList? codes with
-    | some h, some w, some ops, some ctx, some maxH, some maxW, some codes =>
-      let sz := strLayout ctx maxH maxW codes
-      match strRender ctx codes (Shape.chain ops (Shape.from h w)) (List.replicate (h * w) sentinel) 0 0 sz.1 sz.2 with
+      match t.layout ctx ct with
       | none => "panic"
-      | some wr => s!"{sz.1}x{sz.2} {showCanvas wr.data}"
+      | some sz => s!"{sz.1}x{sz.2}"
+    | _, _, _ => "bad-op"
+  | ["str", h, w, chain, ctx, widths, ct, pos, codes] =>
+    match h.toNat?, w.toNat?, parseChain chain, parseCtx ctx widths, parseCt ct, parsePos pos, natList? codes with
+    | some h, some w, some ops, some ctx, some ct, some pos, some codes =>
+      match strLayout ctx ct codes with
+      | none => "panic"
+      | some sz =>
+        match strRender ctx codes (Shape.chain ops (Shape.from h w)) (List.replicate (h * w) sentinel) pos.1 pos.2 sz.1 sz.2 with
+        | none => "panic"
+        | some wr => s!"{sz.1}x{sz.2} {showCanvas wr.data}"
     | _, _, _, _, _, _, _ => "bad-op"
+  | ["tsink", widths, wraps, tface, chunks] =>
+    -- a `Text` as the sink of `utf8_writer()`: results of the writes and the cells collected
+    match parseCtx "1;1x1" widths, parseFace tface, parseChunksHex chunks with
+    | some _, some face, some chunks =>
+      match session utf8Auto Text.putChar { Text.new with wraps := wraps == "1", face := face } (uinit utf8Auto) chunks with
+      | .error e => showFault e
+      | .ok (t, rs) =>
+        s!"{",".intercalate (rs.map fun r => if r then "ok" else "err")} {if t.cells.isEmpty then "-" else showCanvas t.cells}"
+    | _, _, _ => "bad-op"
   | _ => "bad-op"
 
 end SurfModel.TextLayout
